@@ -207,20 +207,34 @@ Theorem C01_cofaces_over_histories_linked : forall ops s c,
 Proof. exact cofaces_history_linked. Qed.
 Print Assumptions C01_cofaces_over_histories_linked.
 
+(* ---- boundary_simplex_range and boundary_opposite_vertex_simplex_range of a simplex s whose faces are stored:
+        exactly |s| facets (none for a vertex), each obtained by dropping one vertex o (the opposite vertex),
+        each found in the tree with its value ---- *)
+Theorem C01_boundary : forall l s,
+  (forall t, In t (faces s) -> find_val t l <> None) ->
+  length (boundary_t l s) = (if (length s =? 1)%nat then 0 else length s)%nat /\
+  forall f o v, In (f, o, v) (boundary_t l s) <->
+                ((2 <= length s)%nat /\ v = find_val f l /\ v <> None /\ exists a b, s = a ++ o :: b /\ f = a ++ b).
+Proof. exact boundary_correct. Qed.
+Print Assumptions C01_boundary.
+
+(* ---- skeleton_simplex_range(k): exactly the stored simplices of dimension <= k, with their values ---- *)
+Theorem C01_skeleton : forall l, wf l -> forall k t v,
+  In (t, v) (skel_t (Node l) k) <-> (t <> [] /\ (length t <= S k)%nat /\ find_val t l = Some v).
+Proof. exact skeleton_correct. Qed.
+Print Assumptions C01_skeleton.
+
 (* ---- stated, not proved in Coq (compared per input by the correspondence run instead) ---- *)
 (* histories that also contain insert_graph, expansion and num_simplices_by_dimension *)
 Definition C01_history_refines_full : Prop :=
   forall ops, ok_history ops = true ->
     (forall t, t <> [] -> find_val t (tree (run true ops)) = lookup (spec_run ops) t) /\
     snd (dimension (run true ops)) = cdim (spec_run ops).
-(* boundary iterators: exactly the facets, each found in the tree, with the removed vertex *)
-Definition C01_boundary_full : Prop :=
-  forall l s, wf l -> (forall t, In t (faces s) -> find_val t l <> None) ->
-    forall f o v, In (f, o, v) (boundary_t l s) -> v = find_val f l /\ v <> None /\ subseq f s = true /\
-                                                   length f = pred (length s) /\ In o s /\ ~ In o f.
-(* skeleton_simplex_range(d) = the simplices of dimension <= d; num_simplices_by_dimension = counts per dimension *)
-Definition C01_skeleton_counts_full : Prop :=
-  forall l k, wf l ->
-    (forall t v, In (t, v) (skel_t (Node l) k) <-> (t <> [] /\ (length t <= S k)%nat /\ find_val t l = Some v)) /\
-    (forall st, tree st = l -> ub_valid st ->
-       exists r, snd (count_by_dim st) = Some r /\ forall d, (d < length r)%nat -> nth d r 0 = count_dim (abs l) (Z.of_nat d)).
+(* num_simplices_by_dimension = the counts per dimension, and its effect on the cached dimension inside histories *)
+Definition C01_counts_full : Prop :=
+  forall st, wf (tree st) -> ub_valid st ->
+    exists r, snd (count_by_dim st) = Some r /\
+              forall d, (d < length r)%nat -> nth d r 0 = count_dim (abs (tree st)) (Z.of_nat d).
+(* the iteration ORDER of complex_simplex_range / skeleton_simplex_range (post-order DFS) and of the boundary
+   (drop the last vertex first) is part of the algorithm model and compared verbatim with the C++; only the
+   set / multiset content is a theorem *)
